@@ -35,7 +35,9 @@ func (e Event) String() string {
 	return e.Kind
 }
 
-func payloadA(n int) map[string]float64 { return map[string]float64{fmt.Sprintf("http://h%da:80", n): 1} }
+func payloadA(n int) map[string]float64 {
+	return map[string]float64{fmt.Sprintf("http://h%da:80", n): 1}
+}
 func payloadB(n int) map[string]float64 {
 	return map[string]float64{fmt.Sprintf("https://h%db:443", n): 3, fmt.Sprintf("http://h%db:80", n): 1}
 }
@@ -100,7 +102,9 @@ type model struct {
 	prio  []string
 }
 
-func newModel() *model { return &model{nodes: map[string]map[string]float64{}, prio: []string{"https", "http"}} }
+func newModel() *model {
+	return &model{nodes: map[string]map[string]float64{}, prio: []string{"https", "http"}}
+}
 
 func (m *model) apply(e Event) {
 	k := fmt.Sprintf("/n%d", e.Node)
@@ -186,10 +190,11 @@ func canonReal(s *d2.VerifServiceUris, full bool) string {
 // ---------- part A: function-level histories ----------
 
 type replayPayload struct {
-	Gen     string  `json:"gen"`
-	Part    string  `json:"part"`
-	History []Event `json:"history,omitempty"`
-	Sel     *selCase `json:"sel,omitempty"`
+	Gen     string    `json:"gen"`
+	Part    string    `json:"part"`
+	History []Event   `json:"history,omitempty"`
+	Sel     *selCase  `json:"sel,omitempty"`
+	TC      *tcReplay `json:"treecache,omitempty"`
 }
 
 func histString(h []Event) string {
@@ -824,6 +829,8 @@ func main() {
 				_, err = checkSelection(rp.Sel.Hosts, rp.Sel.Prio, rp.Sel.R, buildUris(rp.Sel.Hosts))
 			}
 			fmt.Printf("selection case: %+v\n", *rp.Sel)
+		case "T":
+			err = replayTreeCache(rp.TC)
 		}
 		if err != nil {
 			fmt.Println("FAIL:", err)
@@ -840,6 +847,9 @@ func main() {
 	}
 	if a.Part == "" || a.Part == "C" {
 		partC(a, rep)
+	}
+	if a.Part == "" || a.Part == "T" {
+		partTreeCache(a, rep)
 	}
 	rep.Write(a.Out)
 }
